@@ -5,8 +5,11 @@ V = os.path.dirname(os.path.dirname(os.path.abspath(__file__)))
 props = [json.loads(l)['id'] for l in open(os.path.join(V, 'properties.jsonl'))]
 
 NOTE = ("Trusted: Lean 4.33 kernel (axioms of every theorem within propext, Classical.choice, Quot.sound; audited on every run; "
-        "no sorry/native_decide/bv_decide/own axioms); the hand-written model is tied to /repo only by the differential correspondence "
-        "stream of this check (sampling, not proof); tools/extract.py for extracted constants; Python identity->indices, "
+        "no sorry/native_decide/bv_decide/own axioms); the hand-written model is tied to /repo by the differential correspondence "
+        "stream of this check (sampling, not proof) and, where the text below says TRANSLATED, by theorems that interpreting the current "
+        "source (translated on every run by tools/extract_*.py into the PyLite fragment, Model/PyLite.lean) equals the model - trusted there: "
+        "the PyLite interpreter as the meaning of the Python fragment, the translators' node-by-node mapping, the object encodings and the "
+        "stated meaning of library primitives; tools/extract.py for extracted constants; Python identity->indices, "
         "exceptions->Err, recursion->fuel, floats->Rat, datetime->rational days, clock->scripted function.")
 
 GRAPH_TIE = ("The model (lean/PjVerif/Model/Graph*.lean) mirrors task.py/wbs.py statement by statement; it is tied to the code by a "
